@@ -234,6 +234,8 @@ def _gen_source(r, i):
         descs = r.sample(DESCS, r.randint(1, 3))
         s["records"] = [_gen_record(r, r.choice(descs)) for _ in range(n)]
     if kind == "truncated":
+        if fmt in ("records.gz", "records.bz2") and r.chance(40):
+            s["damage"] = "trailer"
         s["cut"] = r.randint(1, 999)  # per mille of the file length
         if r.chance(25):
             s["cut"] = ["frame", r.randint(0, 20)]  # exactly at a frame / line boundary
@@ -638,6 +640,14 @@ def _write_source(s, path, built_iter):
         with open(path, "wb") as f:
             f.write(_compress(fmt, data))
         return len(recs), None
+    if kind == "truncated" and s.get("damage") == "trailer" and fmt in ("records.gz", "records.bz2"):
+        # the complete file with a damaged check value at its end: the codec raises an OSError while the last block is
+        # read, i.e. DURING the iteration; how many records come out before that is the reader's business (read alone)
+        comp = bytearray(_compress(fmt, data))
+        comp[-6 if fmt.endswith(".gz") else -3] ^= 0x5A
+        with open(path, "wb") as f:
+            f.write(bytes(comp))
+        return None, "io"
     # truncated
     cut = s["cut"]
     if isinstance(cut, list):
